@@ -81,6 +81,7 @@ type Impl struct {
 	Runs     int
 	Extra    func(m *Impl) // registers additional host functions on a fresh state
 	Userdata []*lua.LUserData
+	Notes    []string // free-form per-run notes written by extra host functions
 }
 
 func NewImpl(opts lua.Options, extra func(m *Impl)) *Impl {
@@ -190,6 +191,9 @@ func NumTok(f float64) string {
 	return "n:" + strconv.FormatFloat(f, 'g', -1, 64)
 }
 
+// RecordEvent records a host call with the arguments currently on L's stack.
+func (m *Impl) RecordEvent(kind string, L *lua.LState) { m.record(kind, L) }
+
 func (m *Impl) record(kind string, L *lua.LState) {
 	n := L.GetTop()
 	args := make([]string, n)
@@ -261,6 +265,7 @@ func (m *Impl) Run(src string, budget int64) (out Outcome) {
 	m.ids = map[lua.LValue]string{}
 	m.counts = map[byte]int{}
 	m.events = nil
+	m.Notes = nil
 	if budget <= 0 {
 		budget = 5_000_000
 	}
